@@ -11,6 +11,8 @@ verus! {
 //%% include trusted/ptreq2.rs
 //%% include prelude/bddshape.rs
 //%% include prelude/bottomup.rs
+//%% include trusted/model_iter.rs
+//%% include trusted/heap_stub.rs
 //%% include inc/bddbuilder.rs
 } // verus!
 fn main() {}
